@@ -91,10 +91,17 @@ func verifH_C10_offline() {
 
 	_, _, err := c.ReadSlices()
 	var big *BigMessage
+	returned, skipped := false, false
 	if errors.As(err, &big) {
-		// the announced payload never arrives in full
-		_, rerr := big.ReadAll()
-		verifAssert(rerr != nil, "C06: ReadAll invents bytes")
+		returned = true
+		if verifChoose("skip", 2) == 1 {
+			// the application does not read the payload; its ownership starts with the next call
+			skipped = true
+		} else {
+			// the announced payload never arrives in full
+			_, rerr := big.ReadAll()
+			verifAssert(rerr != nil, "C06: ReadAll invents bytes")
+		}
 		_, _, err = c.ReadSlices()
 	}
 	verifAssert(err != nil, "C10: truncated stream delivered a message")
@@ -104,7 +111,21 @@ func verifH_C10_offline() {
 	st, e = verifExState(pingDone)
 	verifAssert(st == 2 && errors.Is(e, ErrBreak), "C10: pending ping not released with ErrBreak on connection loss")
 	verifAssert(conn.closed, "C10: failed connection left open")
-	verifNextConnectionWorks(c, store, "C10")
+	after := verifNextConnection(c, store, "C10")
+	p := ps[0]
+	if !returned {
+		verifAssert(len(after) == 0, "C07: an acknowledgement is sent on the next connection for a message that was never returned")
+	} else if skipped {
+		switch p.qos {
+		case 0:
+			verifAssert(len(after) == 0, "C07: acknowledgement for a QoS 0 message")
+		case 1:
+			verifAssert(verifBytesEq(after, []byte{0x40, 2, byte(p.id >> 8), byte(p.id)}), "C07: the PUBACK owed for a returned (skipped) big message is not sent on the next connection after the old one broke during the skip")
+		case 2:
+			verifAssert(verifBytesEq(after, []byte{0x50, 2, byte(p.id >> 8), byte(p.id)}), "C07: the PUBREC owed for a returned (skipped) big message is not sent on the next connection after the old one broke during the skip")
+		}
+		verifReach("skipped-big-acked")
+	}
 	verifReach("offline")
 }
 
